@@ -1029,4 +1029,24 @@ class Exec:
             return t_and(sa == sb, self.forall([ia], z3.Implies(
                 z3.And(0 <= ia, ia < z3.Length(sa)),
                 t_and(fa.guard == fb2.guard, z3.Implies(fa.guard, self.eq(st, fa.elem, fb2.elem))))))
+        # a sequence value against a comprehension over a sequence: the comprehension's value is a function of
+        # (source sequence, guard as a function of the index, element as a function of the index); it is named by an
+        # uninterpreted function of exactly these, so equal comprehensions denote equal sequences (congruence) and
+        # nothing else is assumed about it
+        for x, y in ((a, b), (b, a)):
+            fx = as_seqfam(x)
+            if fx is None or isinstance(y, VFam):
+                continue
+            hy = self.resolve(st, y) if isinstance(y, VRef) else y
+            if isinstance(hy, HList) and not hy.items:
+                continue
+            if isinstance(hy, HSeq):
+                sa, ia = fx.seqsrc
+                et = self.lower(fx.elem, hy.elem_ty)
+                f = self.ctx.ufunc(f"famseq<{et.sort()}>", sa.sort(), z3.ArraySort(z3.IntSort(), z3.BoolSort()),
+                                   z3.ArraySort(z3.IntSort(), et.sort()), hy.t.sort())
+                # ... except its length: the number of source indices that satisfy the guard (the same term `len(...)`
+                # of the comprehension denotes)
+                cnt = self.as_int(self.agg_len(st, fx))
+                return z3.And(hy.t == f(sa, z3.Lambda([ia], fx.guard), z3.Lambda([ia], et)), z3.Length(hy.t) == cnt)
         raise Unsupported("equality of comprehension values with different shapes")
